@@ -816,7 +816,8 @@ func init() {
 	core.Register(&core.Property{
 		ID: "C13", PropsModule: "GoDebian.Props.C13", Facts: arFacts,
 		Streams: []core.Stream{{Name: "artool", Gen: streamArTool, Domain: "archives written by the system's /usr/bin/ar (GNU format, deterministic mode) from 1-4 random files: model vs implementation, and law-arfiles (members = the files, then end of archive)"}, {Name: "ar", Gen: streamAr,
-			Domain: "member-list models (0-5 members; names of 1-16 bytes incl. blanks and non-ASCII, GNU trailing slash; sizes 0, 1, odd, even; blank numeric columns; binary data incl. the magic strings) built into archives by the Lean specification Spec.Ar.build; iteration by the real reader: per member the recorded metadata and a fingerprint of the bytes read *after* the iterator has finished and again after a rewind; terminal outcome and step count; cross-check of the harness's own writer"}},
+			Domain: "member-list models (0-5 members; names of 1-16 bytes incl. blanks and non-ASCII, GNU trailing slash; sizes 0, 1, odd, even; blank numeric columns; binary data incl. the magic strings) built into archives by the Lean specification Spec.Ar.build; iteration by the real reader: per member the recorded metadata and a fingerprint of the bytes read *after* the iterator has finished and again after a rewind; terminal outcome and step count; cross-check of the harness's own writer"},
+			{Name: "arlarge", Gen: streamArLarge, Domain: "archives given as runs (literal bytes + runs of zero bytes, served through a sparse io.ReaderAt) built by the Lean specification Spec.Ar.buildSegs: members of 10^5 .. 9999999999 bytes (every digit count of the size column up to all ten, sizes around 2^31 and 2^32, odd and even) between small members; per member metadata, size, first 16 and last byte through the member's reader, terminal outcome, step count; plus the same source cut short and with a stray trailing byte (model vs implementation)"}},
 		Impl: debImpl, Readable: debReadable, TrustedBase: tb,
 	})
 	core.Register(&core.Property{
